@@ -111,6 +111,14 @@ def run(prop, grp, tier, obligations, undecided, failures, checker_cmds, ev_extr
         log = gen(path)  # raises Undecided on a lost anchor
         ev_extra.setdefault("extraction_log", []).extend(log)
         by_line, body_ranges, names = verus_gen.obligation_map(path)
+        gen_lines = open(path).read().split("\n")
+        clause_text = {}
+        for ln, nm in by_line.items():
+            clause_text[nm] = re.sub(r"\s*//@.*$", "", gen_lines[ln - 1]).strip().rstrip(",")[:400]
+        for (a, b, nm) in body_ranges:
+            # first line of the region's item (signature / lemma header) as a hint of what is under contract
+            hdr = next((l.strip() for l in gen_lines[a:b] if l.strip() and not l.strip().startswith("//")), "")
+            clause_text.setdefault(nm, ("body obligations of: " + hdr)[:400])
         fn_ranges = verus_gen.fn_ranges(path)
         want = grp.get("obligations")  # restrict to the obligations this property claims
         def wanted(n):
@@ -178,7 +186,8 @@ def run(prop, grp, tier, obligations, undecided, failures, checker_cmds, ev_extr
         for n in names:
             if not wanted(n):
                 continue
-            o = {"name": n, "engine": "verus", "backend": "z3", "solver_s": round(per, 3), "completeness": "complete"}
+            o = {"name": n, "engine": "verus", "backend": "z3", "solver_s": round(per, 3), "completeness": "complete",
+                 "contract": clause_text.get(n, "")}
             if n in failed:
                 o["result"] = "failed"
                 o["verifier_messages"] = failed[n]
